@@ -60,6 +60,8 @@ def main(argv=None):
     lock = harness.load_lock(pid)
 
     n_obl = n_dis = 0
+    n_bnd = n_bnd_ok = 0
+    bounded_units = []
     violations, undecided, crashes, known_hits, unknowns = [], [], [], [], []
     backends = {}
     solver_secs = 0.0
@@ -76,15 +78,24 @@ def main(argv=None):
         if r["status"] == "ok" and r.get("consistent") is False:
             crashes.append((r["unit"], "must-fail canary verified: path conditions contradictory (vacuous)", ""))
         names = {}
+        is_bounded = r.get("kind") == "bounded"
+        if is_bounded:
+            bounded_units.append(dict(unit=r["unit"], function=r.get("func"), secs=round(r.get("secs", 0), 2),
+                                      results=[dict(check=o["name"], held=o["status"] == "proved", note=(o.get("note") or "")[:300]) for o in r["obls"]]))
         for o in r["obls"]:
-            n_obl += 1
-            backends[o["backend"]] = backends.get(o["backend"], 0) + 1
-            solver_secs += o["secs"]
+            if is_bounded:
+                # bounded native stand-ins: reported on their own, never counted as obligations discharged by proof
+                n_bnd += 1
+                n_bnd_ok += o["status"] == "proved"
+            else:
+                n_obl += 1
+                backends[o["backend"]] = backends.get(o["backend"], 0) + 1
+                solver_secs += o["secs"]
             e = names.setdefault(o["name"], dict(paths=0, proved=0, failed=0, unknown=0))
             e["paths"] += 1
             e["failed" if o["status"] == "failed-weak" else o["status"]] += 1
             if o["status"] == "proved":
-                n_dis += 1
+                n_dis += 0 if is_bounded else 1
             elif o["status"] == "unknown":
                 k = harness.match_known(known, pid, r["unit"], o["name"])
                 if k is not None:
@@ -216,6 +227,8 @@ def main(argv=None):
         explanation=getattr(mod, "EXPLANATION", ""),
         exhaustive=False,
         repo_head=_git_head(REPO),
+        bounded_stand_ins=dict(note="bounded native runs of the real code (labelled bounded, never counted as proved); they also serve as replay oracles",
+                               checks=n_bnd, held=n_bnd_ok, units=bounded_units),
     )
     cov.update(extra.get("coverage", {}))
     if level != "proof" or n_obl == 0:
@@ -229,7 +242,7 @@ def main(argv=None):
         os.makedirs(os.path.join(VERIF, "evidence"), exist_ok=True)
         json.dump(ev, open(os.path.join(VERIF, "evidence", f"{pid}.json"), "w"), indent=1, default=str)
 
-    print(f"[{pid}] tier={tier} units={len(results)} obligations={n_obl} discharged={n_dis} "
+    print(f"[{pid}] tier={tier} units={len(results)} obligations={n_obl} discharged={n_dis} bounded={n_bnd_ok}/{n_bnd} "
           f"known={len(known_hits)} violations={len(vio_lines)} undecided={len(undecided)} crashes={len(crashes)} wall={wall:.1f}s")
     if a.verbose or rc:
         for u in per_unit:
